@@ -107,6 +107,9 @@ pub struct Inner {
     free_max_us: AtomicU64,
     /// which hook points take part (bit mask over point codes < 32); harness points always do
     hook_mask: AtomicU32,
+    /// ThreadSanitizer runs: the harness must not add synchronisation of its own between the
+    /// workers (shared atomics create happens-before edges that would hide races)
+    pub quiet: AtomicBool,
 }
 
 thread_local! {
@@ -138,6 +141,7 @@ pub fn global() -> Arc<Inner> {
                 free_seed: AtomicU64::new(1),
                 free_max_us: AtomicU64::new(0),
                 hook_mask: AtomicU32::new(u32::MAX),
+                quiet: AtomicBool::new(false),
             });
             let h = inner.clone();
             verif_hooks::set_handler(Some(Arc::new(move |p, _w| {
@@ -160,6 +164,9 @@ fn short_sleep(us: u64) {
 
 impl Inner {
     pub fn tick(&self) -> u64 {
+        if self.quiet.load(Ordering::Relaxed) {
+            return 0;
+        }
         self.clock.fetch_add(1, Ordering::SeqCst)
     }
 
@@ -169,6 +176,24 @@ impl Inner {
             Some(id) => id,
             None => return,
         };
+        if self.quiet.load(Ordering::Relaxed) {
+            // thread-local jitter only
+            let r = TRNG.with(|t| {
+                let mut x = t.get();
+                if x == 0 {
+                    x = 0x2545_F491_4F6C_DD1D ^ (id as u64 + 1).wrapping_mul(0x9E37_79B9_7F4A_7C15);
+                }
+                x ^= x << 13;
+                x ^= x >> 7;
+                x ^= x << 17;
+                t.set(x);
+                x
+            });
+            if r % 8 == 0 {
+                short_sleep((r >> 8) % 200);
+            }
+            return;
+        }
         let s = &self.slots[id];
         s.points_passed.fetch_add(1, Ordering::Relaxed);
         s.last_point.store(code, Ordering::Release);
